@@ -121,5 +121,92 @@ func genForced(ctx *common.Ctx) []implJob {
 			Runs: []string{implRoutine(a.String(), 0), implRoutine(b, 1)}, Procs: common.Pick(r, procChoices)},
 			Shape: "forced-exit-" + ex.name, Counts: []int{1, 1}})
 	}
+	// ---- select with a timeout clause written before / between / after the channel clauses: a consumer forwards
+	//      every item to the out channel of the clause that ran; items must come out on the right channel ----
+	for t := 0; t < 3; t++ {
+		nch := 1 + r.Intn(3)
+		// channels: c0..c(nch-1) in, c(nch)..c(2nch-1) out
+		caps := make([]int, 2*nch)
+		for c := range caps {
+			caps[c] = 8
+		}
+		order := selectClauses(r, nch).Cs
+		if t == 0 { // the documented consumer-with-timeout, timeout first
+			order = append([]int{-1}, order...)
+			var keep []int
+			seen := 0
+			for _, c := range order {
+				if c < 0 {
+					seen++
+					if seen > 2 {
+						continue
+					}
+				}
+				keep = append(keep, c)
+			}
+			order = keep
+		}
+		var sel strings.Builder
+		sel.WriteString("(select")
+		for _, c := range order {
+			if c < 0 {
+				sel.WriteString(" ((time-after 1000) tv (channel-push c0 -1))")
+			} else {
+				fmt.Fprintf(&sel, " (c%d v (channel-push c%d v))", c, nch+c)
+			}
+		}
+		sel.WriteString(")")
+		items := 2 + r.Intn(3)
+		var cons, drv strings.Builder
+		for k := 0; k < items*nch; k++ {
+			cons.WriteString(sel.String() + " ")
+		}
+		for k := 0; k < items; k++ {
+			for c := 0; c < nch; c++ {
+				fmt.Fprintf(&drv, "(channel-push c%d %d) ", c, 100*c+k)
+			}
+		}
+		n := 0
+		for c := 0; c < nch; c++ {
+			for k := 0; k < items; k++ {
+				drv.WriteString(okEntry(n, fmt.Sprintf("(channel-pop c%d)", nch+c), fmt.Sprint(100*c+k)) + " ")
+				n++
+			}
+		}
+		out = append(out, implJob{Job: job{Kind: "lisp", Caps: caps, Runs: []string{implRoutine(cons.String(), 0), implRoutine(drv.String(), 1)},
+			Procs: common.Pick(r, procChoices)}, Shape: "forced-select-timeout", Counts: []int{0, n}})
+	}
+
+	// ---- synchronizedp / set-synchronized while another routine is inside a slot access (vhold holds the instance
+	//      lock the way a slot access does): the instance must still be reported synchronized, set-synchronized
+	//      must leave its mutex alone, a slot write must wait for the holder ----
+	for _, kind := range []string{"clos", "flavor"} {
+		// c0 told, c1 release, c2 go-write, c3 wrote
+		hold := "(vhold o0 c0 c1)"
+		probe := "(channel-pop c0) " + okEntry(0, "(synchronizedp o0)", "t") + " (set-synchronized o0 t) " + okEntry(1, "(synchronizedp o0)", "t") +
+			" (channel-push c2 1) (vpause 20000) " + okEntry(2, "(length c3)", "0") + " (channel-push c1 1) " +
+			okEntry(3, "(channel-pop c3)", "5") + " " + okEntry(4, cellRead(kind, 0, 0), "5") + " " + okEntry(5, "(synchronizedp o0)", "t")
+		write := "(channel-pop c2) " + cellWrite(kind, 0, 0, "5") + " (channel-push c3 5)"
+		out = append(out, implJob{Job: job{Kind: "lisp", Caps: []int{0, 0, 0, 1}, Cells: []string{kind},
+			Runs: []string{implRoutine(hold, 0), implRoutine(probe, 1), implRoutine(write, 2)}, Procs: common.Pick(r, procChoices)},
+			Shape: "forced-sync-held-" + kind, Counts: []int{0, 6, 0}})
+	}
+	// ---- the same without the harness holding anything: writers hammer their own slot of one synchronized
+	//      instance while a routine keeps asking synchronizedp and setting synchronized again ----
+	for _, kind := range []string{"clos", "flavor"} {
+		nw := 3 + r.Intn(3)
+		loops := 1500
+		var runs []string
+		counts := make([]int, nw+1)
+		for i := 0; i < nw; i++ {
+			runs = append(runs, implRoutine(fmt.Sprintf("(dotimes (k%d %d) %s)", i, loops, cellWrite(kind, 0, 0, fmt.Sprintf("k%d", i))), i))
+		}
+		ask := fmt.Sprintf("(let ((bad 0)) (dotimes (q %d) (if (synchronizedp o0) nil (setq bad (+ bad 1))) (set-synchronized o0 t)) %s)", loops,
+			okEntry(0, "bad", "0"))
+		runs = append(runs, implRoutine(ask, nw))
+		counts[nw] = 1
+		out = append(out, implJob{Job: job{Kind: "lisp", Cells: []string{kind}, Runs: runs, Procs: common.Pick(r, []int{4, 8, 16})},
+			Shape: "forced-sync-load-" + kind, Counts: counts})
+	}
 	return out
 }
